@@ -38,7 +38,7 @@ TRUSTED = ["harness/c09.py (independent OVF reader/writer, generators, comparato
            "json round trip of the side-car file"]
 ASSUMPTIONS = ["labels consist of word characters (regex \\w), units contain no white space and no ':' and are not the "
                "literal 'None' (other strings are outside the header grammar; recorded as observations)",
-               "extend_scalar=True is claimed for one-component fields (for vector fields see finding D21)",
+               "extend_scalar=True is claimed for one-component fields (for vector fields see finding D24)",
                "subregions are exercised on dyadic meshes of moderate scale (alignment at extreme scales is C14 / D18)",
                "D19 (short data block still followed by the footer) is outside the quantifier: observed, not flagged"]
 UNPROVED = ["bit identity for bin8 / float32 rounding for bin4 / 1e-9 for text: structural part proved on abstract value "
@@ -444,7 +444,7 @@ def cases(rng, tier):
         c["kind"] = "trunc_rt"
         c["frac"] = rng.random()
         yield c
-    # ---- D19 observation, D21 stream, separator observations
+    # ---- D19 observation, D24 stream, separator observations
     for spec in SMALL_FILES[:2]:
         for k in range(1, 4):
             yield dict(kind="obs_d19", file=spec, short=k)
@@ -650,7 +650,7 @@ def run_rt(case, obs, fail):
                 if st2 == "ok":
                     fail(f"binary file cut at byte {t} of {len(raw)} (data block ends at {end}) was read into a field")
     if extend and nv > 1:
-        # finding D21: the writer's extend_scalar branches forget the one-component condition
+        # finding D24: the writer's extend_scalar branches forget the one-component condition
         if obs["write"] == "err":
             fail(f"extend_scalar=True with a {nv}-component field: to_file({rep}) raises {obs.get('write_exc')}")
         elif obs["read"] != "ok":
@@ -1240,7 +1240,7 @@ def nontrivial(case, obs):
 
 def known(case, text):
     if case["kind"] in ("rt", "trunc_rt") and case.get("extend") and case.get("nvdim", 1) > 1 and "extend_scalar=True with a" in text:
-        return "D21"
+        return "D24"
     return None
 
 
